@@ -556,17 +556,19 @@ impl SyncResponder {
         provider: &mut impl StorageProvider,
     ) -> Result<usize, SyncError> {
         if self.next_send >= self.to_send.len() {
-            self.state = SyncResponderState::Idle;
             let message = SyncResponseMessage::SyncEnd {
                 session_id: self.session_id()?,
                 max_index: self.message_index as u64,
                 remaining: false,
             };
+            // As below: only finish the session once the message is written,
+            // so a retry with a larger buffer still sends `SyncEnd`.
             let length = Self::write(target, message)?;
+            self.state = SyncResponderState::Idle;
             return Ok(length);
         }
 
-        let (commands, command_data, next_send) = self.get_commands(provider)?;
+        let (commands, command_data, next_send, resume) = self.get_commands(provider)?;
 
         let message = SyncResponseMessage::SyncResponse {
             session_id: self.session_id()?,
@@ -589,7 +591,7 @@ impl SyncResponder {
             .message_index
             .checked_add(1)
             .assume("message_index overflow")?;
-        self.next_send = next_send;
+        self.advance(next_send, resume)?;
         Ok(total_length)
     }
 
@@ -617,7 +619,7 @@ impl SyncResponder {
             }
         };
         self.to_send = Self::find_needed_segments(&self.has, storage, buffers)?;
-        let (commands, command_data, next_send) = self.get_commands(provider)?;
+        let (commands, command_data, next_send, resume) = self.get_commands(provider)?;
         let mut length = 0;
         if !commands.is_empty() {
             let message = SyncType::Push {
@@ -644,12 +646,30 @@ impl SyncResponder {
                 .message_index
                 .checked_add(1)
                 .assume("message_index increment overflow")?;
-            self.next_send = next_send;
+            self.advance(next_send, resume)?;
             length = total_length;
         }
         Ok(length)
     }
 
+    /// Record that a response was handed to the caller: move `next_send`
+    /// forward and, if the response stopped partway through a segment,
+    /// point that entry at the first unsent command.
+    fn advance(&mut self, next_send: usize, resume: Option<Location>) -> Result<(), SyncError> {
+        if let Some(resume) = resume {
+            *self
+                .to_send
+                .get_mut(next_send)
+                .assume("send index in bounds")? = resume;
+        }
+        self.next_send = next_send;
+        Ok(())
+    }
+
+    /// Collects the next response's commands. Does not advance the
+    /// session: the returned `next_send` index and the resume location of
+    /// a partially sent segment are applied by [`Self::advance`] once the
+    /// message has been written out.
     fn get_commands(
         &mut self,
         provider: &mut impl StorageProvider,
@@ -658,6 +678,7 @@ impl SyncResponder {
             Vec<CommandMeta, COMMAND_RESPONSE_MAX>,
             Vec<u8, MAX_SYNC_MESSAGE_SIZE>,
             usize,
+            Option<Location>,
         ),
         SyncError,
     > {
@@ -675,6 +696,7 @@ impl SyncResponder {
         let mut commands: Vec<CommandMeta, COMMAND_RESPONSE_MAX> = Vec::new();
         let mut command_data: Vec<u8, MAX_SYNC_MESSAGE_SIZE> = Vec::new();
         let mut index = self.next_send;
+        let mut resume = None;
         for i in self.next_send..self.to_send.len() {
             if commands.is_full() {
                 break;
@@ -736,15 +758,14 @@ impl SyncResponder {
                     .max_cut
                     .checked_add(sent as u64)
                     .assume("max_cut + sent mustn't overflow")?;
-                *self.to_send.get_mut(i).assume("send index in bounds")? =
-                    Location::new(location.segment, resume_max_cut);
+                resume = Some(Location::new(location.segment, resume_max_cut));
                 index = i;
                 break;
             }
 
             index = i.checked_add(1).assume("index + 1 mustn't overflow")?;
         }
-        Ok((commands, command_data, index))
+        Ok((commands, command_data, index, resume))
     }
 
     fn session_id(&self) -> Result<u128, SyncError> {
